@@ -195,6 +195,24 @@ def m01e(res, mod, tier):
     return len(done)
 
 
+def pipeline_probe(res):
+    """Supporting, NOT solver-decided: the templates the J checks enumerate (C03 / C05 / C06 / C14 families, ~700 programs) are pushed
+    through parse -> generate -> stringify of the real build; a panic anywhere is a replayed totality violation on a concrete input."""
+    from checks import c14
+    from jssym import driver
+    progs = c14.programs('quick', res.seed)
+    comp = driver.compile_batch(progs, want=('gen_object', 'stringify'))
+    npanic = 0
+    for t, c in zip(progs, comp):
+        if 'panic' in c:
+            npanic += 1
+            if npanic == 1:
+                res.violation({'engine': 'replay', 'harness': 'pipeline', 'class': 'panic:' + c['panic'].split(' at ')[0][:40]},
+                              'the compiler panics on %r: %s' % (t[:300], c['panic']), {'template': t})
+    res.coverage['pipeline_probe'] = {'programs': len(progs), 'panics': npanic, 'note': 'concrete runs; supporting only'}
+    res.coverage['traces_validated_against_impl'] = res.coverage.get('traces_validated_against_impl', 0) + len(progs)
+
+
 def main(tier):
     res = Result('C01', 'other')
     res.engines = ['M (MIR symbolic execution with ParseState contracts)']
@@ -202,6 +220,7 @@ def main(tier):
     mod = Module(common.mir_dump('tc'))
     n1 = m01b(res, mod, tier)
     n2 = m01e(res, mod, tier)
+    pipeline_probe(res)
     from kani import runner
     runner.run_for(res, 'C01', tier)        # K01a (parse_number small inputs) and K01c = the progress lemma of the ParseState primitives
     res.bounds = {'parse_number': 'quick: free ASCII <= 12 chars + families 0x+18 alnum, 21 decimal digits, 0+23 octal digits; thorough: free ASCII <= 24',
